@@ -97,10 +97,15 @@ def stream_replay(rep, wd, tier, seed):
 
 
 def _replay_faults(args):
-    wd, k, slack, pairvals = args
+    wd, k, slack, pairvals, lead = args
     # slack = P: the last block holds fill only (data ends on a block boundary); content all-PAD for even k
-    base = render_blocks((b'@' * (k * P) if k % 2 == 0 else CODE[:k * P])[:k * P - slack], k)
-    cfg = write_cfg(os.path.join(wd, 'UnblockEnum-%d-%d.cfg' % (k, slack)),
+    content = (b'@' * (k * P) if k % 2 == 0 else CODE[:k * P])
+    if lead:
+        # every block starts with these bytes (a line terminator picked up in a transfer would look the same): a cut
+        # just behind a block boundary then leaves exactly them as surplus
+        content = b''.join(lead + CODE[j * P:(j + 1) * P - len(lead)] for j in range(k))
+    base = render_blocks(content[:k * P - slack], k)
+    cfg = write_cfg(os.path.join(wd, 'UnblockEnum-%d-%d-%d.cfg' % (k, slack, len(lead))),
                     'CONSTANTS P = %d T = %d PAD = 64 K = %d Slack = %d PairVals = {%s}\nSPECIFICATION Spec\nINVARIANT RoundInv\n'
                     'CHECK_DEADLOCK FALSE\n' % (P, T, k, slack, pairvals))
     bad, count = [], 0
@@ -136,9 +141,10 @@ def fault_replay(rep, wd, tier):
     # both trailer bytes replaced: every equal pair, and every ordered pair over these values (thorough: over all 256
     # values on the one-block file)
     hazardous = '0, 10, 13, 32, 36, 48, 63, 64, 65, 124, 192, 255'
-    jobs = [(wd, k, 7 * k, hazardous) for k in ks] + [(wd, k, P, hazardous) for k in ks if k > 1]
+    jobs = [(wd, k, 7 * k, hazardous, b'') for k in ks] + [(wd, k, P, hazardous, b'') for k in ks if k > 1]
+    jobs += [(wd, 3, 5, '64', b'\n'), (wd, 3, 6, '64', b'\r\n'), (wd, 2, 4, '64', b'\x00\x00'), (wd, 2, 8, '64', b'@')]
     if tier == 'thorough':
-        jobs.append((wd, 1, 3, ', '.join(str(v) for v in range(256))))
+        jobs.append((wd, 1, 3, ', '.join(str(v) for v in range(256)), b''))
     with ProcessPoolExecutor(len(jobs)) as ex:
         outs = list(ex.map(_replay_faults, jobs))
     ks = [j[1] for j in jobs]
@@ -275,6 +281,8 @@ def _drive_ind(args):
         ev = []
         with drv.Env('ind', tid):
             u = mciipm.Unblock1014(f)
+            if tid % 3 == 1:
+                f.seek(0)            # the caller positions the file after wrapping it (e.g. after looking at its head)
             for n in sizes:
                 try:
                     o = u.read() if n == 0 else u.read(n)
